@@ -21,6 +21,8 @@ def main():
         for k, c in enumerate(cases):
             c["opts"]["bs"] = 2
             c["cached"] = k % 2        # every other file: all queries in sequence through one caching reader
+            if k % 4 >= 2:
+                c["qorder"] = "shuffle"   # ... half of them in a seeded permutation (non-monotonic, chromosomes interleaved)
             if k % 11 == 5:
                 c["scale"] = 2 ** 28     # positions up to 3.2e9: beyond 2^31, below 2^32 (comparisons must be unsigned 32-bit)
         return cases
